@@ -29,6 +29,20 @@ func nested() *schema.ObjectSchema {
 }
 
 func workStep(id string, withCancel bool, tagType schema.Type) *schema.StepSchema {
+	return workStepGrown(id, withCancel, tagType, false)
+}
+
+// workStepGrown: with grown, the success output has one more (optional) property, `attempts` - a later release of the
+// same plugin whose input is unchanged.
+func workStepGrown(id string, withCancel bool, tagType schema.Type, grown bool) *schema.StepSchema {
+	st := workStepBase(id, withCancel, tagType)
+	if grown {
+		st.OutputsValue["success"].SchemaValue.Objects()["WorkSuccess"].PropertiesValue["attempts"] = prop(schema.NewIntSchema(nil, nil, nil), false)
+	}
+	return st
+}
+
+func workStepBase(id string, withCancel bool, tagType schema.Type) *schema.StepSchema {
 	handlers := map[string]*schema.SignalSchema{}
 	if withCancel {
 		handlers[plugin.CancellationSignalSchema.ID()] = plugin.CancellationSignalSchema
@@ -80,6 +94,8 @@ func PluginSchema(variant string) *schema.SchemaSchema {
 		steps["work"] = workStep("work", true, schema.NewIntSchema(nil, nil, nil))
 	case "renamed":
 		steps["renamed"] = workStep("renamed", true, str())
+	case "grown":
+		steps["work"] = workStepGrown("work", true, str(), true)
 	default:
 		steps["work"] = workStep("work", true, str())
 	}
@@ -283,6 +299,11 @@ func execute(p *conn, sc *Script, variant string, runID string, ws atp.WorkStart
 	switch outcome {
 	case "success":
 		outID, outData = "success", SuccessData(p.src, input)
+		if variant == "grown" {
+			if m, ok := outData.(map[string]any); ok {
+				m["attempts"] = int64(3)
+			}
+		}
 	case "error":
 		if msg == "" {
 			msg = "scripted error from " + p.src
